@@ -9,6 +9,7 @@ def _n_range(policy, tier, op):
     if tier == 'quick':
         hi = 2 if (policy in ('TLRU',) and op != 'get') else 3
         if op == 'insert_with_memory' and policy in ('ARC', 'TLRU', 'LFU', 'Random'): hi = 2
+        if op == 'get': hi = 4          # lookups are cheap: one more entry exposes order bugs that need a 'middle' position
     else:
         hi = 3 if (policy == 'TLRU' and op != 'get') else 4
         if op == 'insert_with_memory' and policy in ('ARC', 'LFU', 'Random'): hi = 3
@@ -35,7 +36,7 @@ def step_items(props, tier, flavours=FLAVOURS, policies=POLICIES, ops=('get', 'i
                         if fw is not None and op == 'get': continue
                         if need and not need(fl, pol, op, L, T, M, fw): continue
                         for n in _n_range(pol, tier, op):
-                            if L == 0 and M == 0 and n > 2 and tier == 'quick': continue
+                            if L == 0 and M == 0 and n > 2 and tier == 'quick' and op != 'get': continue
                             out.append(dict(kind='step', flavour=fl, policy=pol, limit=bool(L), ttl=bool(T), mem=bool(M), fw=fw, n=n, op=op, props=list(props)))
     return out
 
@@ -59,6 +60,29 @@ def wrap_items(props, tier, pred=None, patterns=('same',), second=(False,)):
     return out
 
 
+def inv_items(props, tier):
+    from .vc_inv import NAMES
+    out = []
+    for kind in ('tag', 'event', 'dep', 'cache'):
+        for name in NAMES:
+            out.append(dict(kind='inv', mode='group', kind2=kind, name=name, props=list(props)))
+    for kind, name, unused in [('tag', 't1', ['g_tag1']), ('tag', 't1', ['a_tag1_ev1', 'g_tag12']), ('dep', 'g_tag1', ['a_dep_tag2']), ('cache', 'custom_g', ['g_named']),
+                               ('event', 'e1', ['g_ev1']), ('tag', 't2', ['g_tag1', 'a_dep_tag2'])]:
+        out.append(dict(kind='inv', mode='group', kind2=kind, name=name, unused=unused, props=list(props)))
+    withs = [('g_tag12', ['g_tag12', 'g_tag1', 'a_nometa'], 3), ('g_tag1', ['g_tag1', 'g_nometa'], 2), ('a_nometa', ['g_tag12', 'a_nometa'], 2), ('a_tag1_ev1', ['a_tag1_ev1', 'g_ev1'], 2),
+             ('custom_g', ['g_named', 'a_named'], 2), ('g_named', ['g_named', 'a_named'], 2), ('nothing_registered', ['g_tag1', 'a_nometa'], 2), ('t_tag1', ['t_tag1', 'g_tag1'], 2),
+             ('g_fifo_l2', ['g_fifo_l2'], 2), ('a_lru_l2', ['a_lru_l2'], 2), ('g_ttl60_fifo_l3', ['g_ttl60_fifo_l3'], 3), ('a_ttl60_fifo_l3', ['a_ttl60_fifo_l3'], 3)]
+    if tier == 'thorough':
+        withs += [('g_tag12', ['g_tag12'], 3), ('a_arc_ttl9_l3', ['a_arc_ttl9_l3'], 3), ('g_mem1kb', ['g_mem1kb'], 3), ('a_mem1kb', ['a_mem1kb'], 3), ('m_ref', ['m_ref'], 3)]
+    for name, subs, nf in withs:
+        out.append(dict(kind='inv', mode='with', name=name, subjects=subs, nfill=nf, props=list(props)))
+    out.append(dict(kind='inv', mode='with', name='g_tag1', subjects=['g_tag1', 'a_nometa'], unused=['g_tag1'], nfill=2, props=list(props)))
+    out.append(dict(kind='inv', mode='all_with', subjects=['g_tag1', 'a_nometa', 'g_named'], nfill=2, props=list(props)))
+    out.append(dict(kind='inv', mode='all_with', subjects=['a_tag1_ev1', 'g_tag12'], nfill=2, props=list(props)))
+    if tier == 'thorough': out.append(dict(kind='inv', mode='all_with', subjects=['g_tag12', 'a_nometa'], nfill=3, props=list(props)))
+    return out
+
+
 def items_for(prop, tier):
     p = prop
     if p == 'C01': return step_items(['C01'], tier) + wrap_items(['C01'], tier, second=(False, True))
@@ -73,6 +97,7 @@ def items_for(prop, tier):
     if p == 'C09': return wrap_items(['C09'], tier, pred=lambda r: r['intended']['result'], second=(False, True))
     if p == 'C10': return wrap_items(['C10'], tier, pred=lambda r: r['intended']['cache_if'] or r['group'] in ('plain', 'res'), second=(False,))
     if p == 'C11': return wrap_items(['C11'], tier, pred=lambda r: r['intended']['invalidate_on'] or r['group'] in ('plain',), second=(False, True))
+    if p in ('C12', 'C13'): return inv_items([p], tier)
     if p == 'C14': return wrap_items(['C14'], tier, pred=lambda r: r['group'] in ('cfg', 'plain', 'sig', 'method', 'meta', 'mem'), patterns=('same', 'other-thread'))
     if p == 'C19': return wrap_items(['C19'], tier)
     return []
